@@ -401,7 +401,7 @@ def task_tables(arg):
                         if not tab[sp.rank(u)]:
                             acc.report(f"monotonicity:{lab}:{s}", f"{cfg}: PERMIT for {[sp.names[x] for x in t]} is lost after {lab} "
                                        f"of one voter -> {[sp.names[x] for x in u]}", cfg, sp, t, u, lab)
-                if sp.nonvoter[a]:
+                if sp.nonvoter[a] and n >= 2:  # base ballot inside the quantifier (>= 1 voter)
                     acc.add("edges")
                     u = t[:i] + t[i + 1:]
                     r0 = tables[n - 1][sp.rank(u)]
